@@ -600,6 +600,9 @@ static json random_schedule(unsigned long seed, long x) {
 				size_t v = rnd(np);
 				add({{"op", "CC"}, {"i", who}, {"j", v}, {"s", sid}, {"s2", sid + 1}, {"ss", sid + 1}, {"cyclic", cyc}, {"kappa", kappa}, {"bits", bits}});
 				if (kappa > 0 && n >= 2 && F.muts > 0) add({{"op", "CC"}, {"i", who}, {"j", v}, {"s", sid}, {"s2", sid + 1}, {"ss", sid + 1}, {"cyclic", cyc}, {"kappa", kappa}, {"bits", bits}, {"mode", "badsize"}, {"grow", rnd(2) == 0}});
+				// a permutation that was not made as a rotation presented to the rotation variant of the proof (the prover runs the
+				// protocol with it): the verifier has to find a non-rotation in every round, whatever the challenge
+				if (kappa > 0 && !cyc && n >= 3 && F.muts > 0) add({{"op", "CC"}, {"i", who}, {"j", v}, {"s", sid}, {"s2", sid + 1}, {"ss", sid + 1}, {"cyclic", true}, {"kappa", kappa}, {"bits", bits}, {"mode", "claimcyclic"}});
 				if (kappa > 0 && F.muts > 0) {
 					// false statement: one card of the output replaced by a fresh card of another type
 					long fc = cid++;
